@@ -7,7 +7,7 @@
    in_subset  XPath/Subset.v  decidable; excludes exactly the inputs on which one of the classes (i) text(), (j) prefixed attribute = in-scope default namespace, (l) junk axis / unbound prefix occurs (and concat) *)
 From Delb.Base Require Import PyStr.
 From Delb.Tree Require Import ATree ITree.
-From Delb.XPath Require Import Ast Nav Eval Ref Subset Run EvalRef OrderFacts C06Witness.
+From Delb.XPath Require Import Ast Nav Eval Ref Subset Run EvalRef OrderFacts EvalFaults ParserAxes Css CssFacts C06Witness.
 
 (* Full statement of DESIGN.md:  forall t ctx e nsmap, in_subset e -> NoDup (eval ...) /\ (forall n, In n (eval ...) <->
    In n (ref_eval (deviate e) ...)).  Proved as stated, with in_subset depending also on the tree and the context node
@@ -54,8 +54,49 @@ Proof.
 Qed.
 Print Assumptions C06_each_node_once.
 
-(* in_document_order (the model of _sort_nodes_in_document_order): defined for tag results only (anything else is
-   NotImplementedError, as in the code); the same positions, strictly increasing in document order *)
+(* ---- class (l), exceptions.  On every expression whose axes are among the eleven generators and whose predicates are
+   typed (known functions, right number of arguments, no text()) -- inside in_subset or not, for every tree, context
+   node and mapping -- the evaluation returns a node list or raises XPathEvaluationError, and it raises only if the
+   expression uses a prefix the mapping does not declare (delb checks a prefix when a test is evaluated: with no
+   candidate to test the undeclared prefix goes unnoticed, which is why the outcome is a disjunction) *)
+Theorem C06_faults : forall D m e ctx, typed e = true ->
+  (exists l, eval D m e ctx = Ok l) \/ (eval D m e ctx = Rejected XPathEvaluationError /\ all_bound m e = false).
+Proof. exact eval_fine. Qed.
+Print Assumptions C06_faults.
+Theorem C06_no_fault : forall D m e ctx, typed e = true -> all_bound m e = true -> exists l, eval D m e ctx = Ok l.
+Proof. exact eval_no_fault. Qed.
+Print Assumptions C06_no_fault.
+(* junk axes (Ast.AxOther) cannot come out of the parser: every entry of the generated table of axis names (Axis._names,
+   regenerated from the source) maps to one of the eleven axes in the parser model *)
+Theorem C06_parser_axes : forall name a, Parse.axis_ctor name = XBase.POk a -> axis_real a = true.
+Proof. exact axis_ctor_real. Qed.
+Print Assumptions C06_parser_axes.
+
+(* ---- CSS.  cssselect stays an oracle; Css.css_ast is a model of what it produces for the selector forms the check
+   generates (type / universal / namespaced selectors, attribute tests, #id, :not(), descendant / child / sibling
+   combinators, groups), tied to the real _css_to_xpath + parser on every run.  For every selector of these forms: *)
+(* the translation is typed: real axes, boolean predicates *)
+Theorem C06_css_typed : forall g, typed (css_ast g) = true.
+Proof. exact css_typed. Qed.
+(* with the selector's prefixes declared, css_select never raises, whatever the tree, the context and the mapping *)
+Theorem C06_css_no_fault : forall D m g ctx, css_declared m g = true -> exists l, eval D m (css_ast g) ctx = Ok l.
+Proof. exact css_no_fault. Qed.
+Print Assumptions C06_css_no_fault.
+(* and every predicate of the translation passes the static part of in_subset (pred_ok): what remains to be decided
+   per case -- and is decided by the Coq definition in the check -- is the dynamic class (j) *)
+Theorem C06_css_static : forall m g, css_declared m g = true ->
+  forallb (fun p => forallb (fun s => forallb (pred_ok m) (step_preds s)) (path_steps p)) (css_ast g) = true.
+Proof. exact css_preds_ok. Qed.
+Print Assumptions C06_css_static.
+
+(* in_document_order: Eval.in_document_order mirrors _sort_nodes_in_document_order / _NodesSorter (a trie keyed by
+   the index tuples, emitted by ascending key).  The trie amounts to insertion into a list kept sorted by position *)
+Theorem C06_order_trie : forall l,
+  in_document_order l = if forallb is_tagnode l then Ok (fold_left (fun a x => insert_sorted x a) l []) else Crash NotImplementedError.
+Proof. exact in_document_order_is_insertion. Qed.
+Print Assumptions C06_order_trie.
+(* hence: defined for tag results only (anything else is NotImplementedError, as in the code); the same positions,
+   strictly increasing in document order *)
 Theorem C06_order : forall l r, in_document_order l = Ok r ->
   forallb is_tagnode l = true /\ sorted r = true /\ (forall p, In p (map fst r) <-> In p (map fst l)).
 Proof. exact in_document_order_sorted. Qed.
